@@ -7,7 +7,7 @@ SPEC = dict(
          "Scores at the edge of the number line are drawn into the pool in three cases of eight: inf / -inf / +inf (valid scores) and nan (must be refused, also as the result of ZINCRBY of one infinity onto the other). Grammar exclusions: infinite range bounds on the other side or without sign ('+inf' / 'inf' as min, '-inf' as max, '+' as lexical min, '-' as lexical max: refused with an error instead of selecting nothing - recorded as C08-infinite-range-bound-only-on-its-own-side, not generated while it is open); indexes beyond +-100 (the documented 5000-element fetch limit is computed before clamping); "
          "names containing 0x00 on the mem engine and MGET across partitions while the corresponding known findings are open; the score -0 is generated (a quarter of the cases) and only the sign of a zero and the spelling of an infinity (+Inf for inf) in a sorted-set reply are not compared while C08-negative-zero-score-sign / C08-infinite-score-spelled-go-style are open.",
     assumptions=[
-        "reference model lib/model written from Redis semantics + doc/user-guide.md; modelled deviations: *CLEAR return 1/0, TTL of a missing key is -1, INCR/INCRBY/HINCRBY wrap on int64 overflow, ZRANGEBYLEX on mixed scores is in member order, scores print as strconv 'g' format",
+        "reference model lib/model written from Redis semantics + doc/user-guide.md; conventions of its own that are modelled: the extension commands' replies (*CLEAR return 1/0), ZRANGEBYLEX on mixed scores in member order (unspecified in Redis), finite scores print in the shortest form that reads back (strconv 'g'); reply differences from Redis that are recorded as known findings switch the model while they are open (TTL of a missing key, PERSIST without expiry, spelling of an infinite score)",
         "log timestamps are the real wall clock here (expiry is C10's subject); only far-future TTLs are generated",
         "fake single-replica raft: each proposal is committed and applied synchronously through the node's real applyEntries",
     ],
@@ -34,5 +34,5 @@ TEXT = dict(
     design_ref="DESIGN.md §4 C08, §3-B",
     technique="model-based property testing (rapid): generated command sequences run through the real server/node/apply path and compared reply-by-reply with a from-scratch reference model",
     level_text="Generated-input exploration against an explicit reference model: thousands of colliding command sequences per run on mem, pebble and rocksdb, both expiry policies and 2-4 partitions; every reply and every read-back must equal the model. Found and repaired four defects on the pinned tree (see known_findings.json). No absence claim except for the thorough tier's bounded-exhaustive sub-run: all 112,944 sequences of length <= 3 over a 48-command alphabet on the mem engine.",
-    level_note="Trusted: lib/model (about 900 lines, written from Redis semantics and the user guide; deviations listed in the evidence assumptions), the fake raft (commit = apply, single replica), error comparison by class only. RocksDB is stock 7.8.3 through a patched binding.",
+    level_note="Trusted: lib/model (about 900 lines, written from Redis semantics and the user guide; its own conventions and the finding-switched replies listed in the evidence assumptions), the fake raft (commit = apply, single replica), error comparison by class only. RocksDB is stock 7.8.3 through a patched binding.",
 )
